@@ -412,6 +412,30 @@ def gate(repo, schema=None, sites=None):
     res.instances += 1
     if f"{core.name}(" not in csrc.split("\n", 1)[1]:
         res.add("gate|recursion", f"{core.name} no longer recurses into sub-expressions", cons.rel, core.line, core.name)
+    # the core verdict function gives up early only with errors: `return []` (no error) must be its last statement,
+    # every other return hands back a non-empty error value
+    res.instances += 3
+    last = core.node.body[-1]
+    for n in walk_no_nested_funcs(core.node):
+        if isinstance(n, ast.Return) and n is not last:
+            v = n.value
+            guarded = False
+            p = cons.parent(n)
+            if isinstance(v, ast.Name) and isinstance(p, ast.If) and isinstance(p.test, ast.Name) and p.test.id == v.id and n in p.body:
+                guarded = True
+            if isinstance(v, ast.List) and v.elts:
+                guarded = True
+            if not guarded:
+                res.add("gate|early-ok", f"{core.name} returns `{ast.unparse(v) if v else 'None'}` before all of its checks ran: "
+                        "some expressions are declared in range without being examined", cons.rel, n.lineno, core.name)
+    if not (isinstance(last, ast.Return) and isinstance(last.value, ast.List) and not last.value.elts):
+        res.add("gate|final", f"{core.name} does not end in `return []`", cons.rel, core.line, core.name)
+    csrc2 = " ".join(csrc.split())
+    if "_integer_bounds_errors(" not in csrc2:
+        res.add("gate|range", f"{core.name} no longer checks the expression's own range", cons.rel, core.line, core.name)
+    if "[expression] + list(expression.function.args)" not in csrc2:
+        res.add("gate|operands", f"{core.name} no longer checks that an operator and all its operands fit one 64-bit type",
+                cons.rel, core.line, core.name)
     res.analysed = [cons.rel]
     return res
 
